@@ -115,6 +115,27 @@ PROPS["C15"] = {
     ],
 }
 
+PROPS["C05"] = {
+    "features": [],
+    "modules": [],
+    "no_kani": True,
+    "needs_rand_090": False,
+    "mirparse": {"quick": 3, "thorough": 4},
+    "functions": ["MIR of <Vec<PushProgram> as From<Plushy>>::from, PushProgram::parse_from_plushy (recursive), <PushInstruction as NumOpens>::num_opens, "
+                  "<ExecInstruction as NumOpens>::num_opens and every per-instruction num_opens it dispatches to (list in the evidence)"],
+    "bounds": {
+        "quick": "genomes of 0..=3 genes, every gene of SYMBOLIC kind (close marker / instruction; instruction family; which of the exec instructions except the boxed Push literal): "
+                 "13 feasible kinds per gene, 2197 paths for length 3; every branch on a gene's discriminant is a z3 feasibility query; the union of the path conditions is checked to be "
+                 "complete; on every path the produced tree is compared with an iterative reference parser",
+        "thorough": "as quick with genomes of up to 4 genes (28561 paths)",
+    },
+    "outside": "genomes longer than 4 genes (the parser treats every gene alike and recursion depth is bounded by the genome length; not proved for longer genomes); "
+               "the gene iterator, Vec::new/push and Range iteration are models, not executed code; ExecInstruction::Push literals",
+    "assumptions": ["rustc's MIR (nightly, -Zunpretty=mir) is the semantics of the source; the Python MIR interpreter bin/mirparse implements the statement kinds it meets and stops "
+                    "(exit 2) on anything else", "z3 4.x decides the path feasibility queries"],
+    "manifest": {"technique": "symbolic execution of the compiler's MIR (regenerated from /repo on every run) with z3 deciding every branch on the symbolic gene kinds; counterexamples replayed natively"},
+}
+
 PROPS["C06"] = {
     "features": ["c06"],
     "modules": ["c06_select::"],
